@@ -236,21 +236,26 @@ fn c05_reassembly_orders() {
 }
 
 /// Writer with fragment size 2 holding one 3-byte change (sn 1: fragments 1,2 of 2,1 bytes) and a
-/// matched reliable reader proxy; receives a NACK_FRAG naming the symbolic non-empty set `m` of
-/// fragment numbers (RTPS 8.3.7.10: fragmentNumberState = the fragments the reader is missing,
-/// numbered from 1; base = lowest missing).
-fn nackfrag_writer_step(strict: bool, m: [bool; 2]) {
+/// matched reliable reader proxy; receives a NACK_FRAG naming the fragment numbers `m` (subset of
+/// {1,2,3}; 3 is beyond the sample) with fragmentNumberState.base = `base` (RTPS 8.3.7.10: numbers
+/// start at 1). Oracle (not more than the statement needs): every named number within 1..=total - the
+/// base included, dust-dds always resends it - is resent as a DATA_FRAG with that
+/// fragment_starting_num and the right bytes; nothing outside the named numbers or outside 1..=total
+/// is sent; duplicates are allowed.
+fn nackfrag_writer_step(m: [bool; 3], base: u32) -> (usize, i32) {
     let mut w = RtpsStatefulWriter::new(s::W_GUID, 2);
     w.add_matched_reader(s::reader_proxy(ReliabilityKind::Reliable, DurabilityKind::Volatile));
     let bytes: [u8; 3] = kani::any();
     w.changes_mut().push(s::change(1, Arc::from(&bytes[..])));
-    let base: u32 = if m[0] { 1 } else { 2 };
-    let mut set = Vec::with_capacity(2);
+    let mut set = Vec::with_capacity(3);
     if m[0] {
         set.push(1u32);
     }
     if m[1] {
         set.push(2u32);
+    }
+    if m[2] {
+        set.push(3u32);
     }
     let count: i32 = kani::any();
     let nf = NackFragSubmessage::new(s::R_ID, s::W_ID, 1, FragmentNumberSet::new(base, set), count);
@@ -287,49 +292,56 @@ fn nackfrag_writer_step(strict: bool, m: [bool; 2]) {
         resent[(k - 1) as usize] = true;
         i += 1;
     }
-    if strict && count > 0 {
-        assert!(resent[0] == m[0] && resent[1] == m[1],
-            "C05: the fragments resent for a NACK_FRAG are exactly the fragment numbers it names (1-based on both sides)");
+    if count > 0 {
+        let named1 = m[0] || base == 1;
+        let named2 = m[1] || base == 2;
+        assert!(resent[0] == named1 && resent[1] == named2,
+            "C05: the fragments resent for a NACK_FRAG are exactly the fragment numbers it names (1-based on both sides) that exist");
     }
-    kani::cover!(count > 0 && n >= 2, "at least two datagrams resent");
-    kani::cover!(count <= 0, "stale NACK_FRAG");
     core::mem::forget(w);
     core::mem::forget(nf);
+    (n, count)
 }
 
-// @check props=C05 tier=quick known=KF-C05-2
-// @desc NACK_FRAG numbering contract, writer side (expected to FAIL, recorded finding KF-C05-2): a writer holding a 2-fragment sample receives a fresh NACK_FRAG naming the missing fragment number set M = {1} (1-based, RTPS 8.3.7.10; count symbolic); the DATA_FRAGs it emits (fields read at their RTPS 9.4.5.4 wire offsets) must carry exactly the fragment_starting_num values in M. The real on_nack_frag_submessage_received uses each requested number as a 0-based index into as_data_frag_submessage (which emits number index+1) and tests it with `< number_of_fragments`: it resends {m+1 : m in M, m < total} - fragment 1 is never resent, a request for the last fragment resends nothing.
-// @bounds one 3-byte change, fragment size 2 (2 fragments); M = {1} (the recorded trigger instance; the defect is independent of M); count full i32; unwind 4
-// @assume trigger of KF-C05-2: any fresh (count > 0) NACK_FRAG with a non-empty fragment set - the trigger is universal, so the sibling c05_nackfrag_writer_resend__rest keeps every other assertion of this obligation (stale counts ignored; whatever is resent is a well-formed, byte-correct fragment of the requested sample)
+// @check props=C05 tier=quick
+// @desc NACK_FRAG numbering contract, writer side, the instance of the defect repaired by fix 6b815dc: a writer holding a 2-fragment sample receives a NACK_FRAG naming the missing fragment number set {1} (1-based, RTPS 8.3.7.10; count symbolic): if the count is fresh the DATA_FRAGs it emits (fields read at their RTPS 9.4.5.4 wire offsets) carry fragment_starting_num 1 and the first two payload bytes - and nothing else; a stale count emits nothing.
+// @bounds one 3-byte change, fragment size 2 (2 fragments); requested set {1}; count full i32; unwind 5
 // @assume datagram container stubbed by support_rtps::from_submessages_staged (real submessage encoders, fixed-capacity staging buffer instead of Cursor<Vec<u8>>); critical-section stubs (support_cs)
 // @enc rtps::stateful_writer::RtpsStatefulWriter::on_nack_frag_submessage_received
 // @enc rtps::cache_change::CacheChange::as_data_frag_submessage
 // @enc rtps_messages::submessages::data_frag::DataFragSubmessage::write_submessage_elements_into_bytes
 #[kani::proof]
-#[kani::unwind(4)]
+#[kani::unwind(5)]
 #[kani::stub(crate::rtps_messages::overall_structure::RtpsMessageWrite::from_submessages, super::support_rtps::from_submessages_staged)]
 #[kani::stub(critical_section::acquire, super::support_cs::cs_acquire)]
 #[kani::stub(critical_section::release, super::support_cs::cs_release)]
-fn c05_nackfrag_writer_resend__known() {
-    nackfrag_writer_step(true, [true, false]);
+fn c05_nackfrag_writer_resend_first() {
+    let (n, count) = nackfrag_writer_step([true, false, false], 1);
+    kani::cover!(count > 0 && n >= 1, "fragment 1 resent");
+    kani::cover!(count <= 0, "stale NACK_FRAG");
 }
 
 // @check props=C05 tier=quick
-// @desc NACK_FRAG handling, writer side, everything except the numbering finding KF-C05-2: a NACK_FRAG whose count is not greater than the last one seen is ignored (nothing emitted); for a fresh one every emitted datagram is INFO_DST+INFO_TS+DATA_FRAG of the requested sample with fragment number in 1..=total, correct geometry (fragment_size, data_size) and exactly the payload bytes of its own fragment number; every datagram built is handed to the transport.
-// @bounds one 3-byte change, fragment size 2 (2 fragments); requested set any non-empty subset of {1,2}; count full i32; unwind 4
+// @desc NACK_FRAG handling, writer side, every request: a NACK_FRAG whose count is not greater than the last one seen is ignored (nothing emitted); for a fresh one naming any non-empty subset M of {1,2,3} of a 2-fragment sample (3 does not exist), with base = min(M) or base = 1, every emitted datagram is INFO_DST+INFO_TS+DATA_FRAG of the requested sample with correct geometry (fragment_size, data_size) and exactly the payload bytes of its own fragment number, and the set of fragment numbers resent is exactly (M + base) within 1..=2 - duplicates allowed; every datagram built is handed to the transport.
+// @bounds one 3-byte change, fragment size 2 (2 fragments); requested set any non-empty subset of {1,2,3}, base in {1, min}; count full i32; unwind 5
 // @assume datagram container stubbed by support_rtps::from_submessages_staged; critical-section stubs (support_cs)
 // @enc rtps::stateful_writer::RtpsStatefulWriter::on_nack_frag_submessage_received
 // @enc rtps::cache_change::CacheChange::as_data_frag_submessage
 // @enc rtps_messages::submessages::data_frag::DataFragSubmessage::write_submessage_elements_into_bytes
 #[kani::proof]
-#[kani::unwind(4)]
+#[kani::unwind(5)]
 #[kani::stub(crate::rtps_messages::overall_structure::RtpsMessageWrite::from_submessages, super::support_rtps::from_submessages_staged)]
 #[kani::stub(critical_section::acquire, super::support_cs::cs_acquire)]
 #[kani::stub(critical_section::release, super::support_cs::cs_release)]
-fn c05_nackfrag_writer_resend__rest() {
-    let m: [bool; 2] = kani::any();
-    kani::assume(m[0] || m[1]);
-    nackfrag_writer_step(false, m);
-    kani::cover!(m[0] && !m[1], "NACK_FRAG asking for fragment 1 only");
-    kani::cover!(!m[0] && m[1], "NACK_FRAG asking for the last fragment only");
+fn c05_nackfrag_writer_resend() {
+    let m: [bool; 3] = kani::any();
+    kani::assume(m[0] || m[1] || m[2]);
+    let min: u32 = if m[0] { 1 } else if m[1] { 2 } else { 3 };
+    let base: u32 = if kani::any() { 1 } else { min };
+    let (n, count) = nackfrag_writer_step(m, base);
+    kani::cover!(count > 0 && m[0] && !m[1] && !m[2], "NACK_FRAG asking for fragment 1 only");
+    kani::cover!(count > 0 && !m[0] && m[1] && !m[2] && base == 2, "NACK_FRAG asking for the last fragment only");
+    kani::cover!(count > 0 && !m[0] && !m[1] && m[2] && base == 3, "NACK_FRAG asking only for a fragment beyond the sample: nothing resent");
+    kani::cover!(count > 0 && n >= 3, "base resent twice plus another fragment");
+    kani::cover!(count <= 0, "stale NACK_FRAG");
 }
